@@ -50,12 +50,12 @@ var fnOwner = [nFns]int{-1, mA, mB, mB, mC, mD, mR}
 
 // slots
 const (
-	sAt = iota // A's exported table [0] (imported by B)
-	sAg        // A's funcref global
-	sBt        // B's private table [0]
-	sBg        // B's funcref global
-	sCt        // C's private table [0]
-	nABCSlots  // the slots above belong to the A/B/C graphs (bounded by MaxNonNull)
+	sAt       = iota // A's exported table [0] (imported by B)
+	sAg              // A's funcref global
+	sBt              // B's private table [0]
+	sBg              // B's funcref global
+	sCt              // C's private table [0]
+	nABCSlots        // the slots above belong to the A/B/C graphs (bounded by MaxNonNull)
 	// graph TR: T's exported table (imported by R) and R's funcref global
 	sTt0 = iota - 1 // filled by R's ACTIVE element segment [r, r] at instantiation
 	sTt1            // (the duplicate entry)
@@ -83,6 +83,7 @@ type state struct {
 	Drop        [nMods]bool // host dropped every reference (instance handle, compiled-module handle)
 	MemGrown    uint8       // how often M's exported memory was grown by one page (at most 2)
 	MemWrote    uint8       // 0: N never wrote; else 1 + MemGrown at the time of N's last write (first and last page)
+	Shape       uint8       // graph TR: module shape of the importer R (which sections it declares) — see shapeDefs
 	RefsMade    uint8       // graph TR: references R created AFTER its instantiation: 0 none, 1 a few (< 8), 2 a burst (>= 64)
 	Slots       [nSlots]uint8
 	Fill        uint8 // bit i: filler compiled module Fi was closed
@@ -121,6 +122,7 @@ func (s state) key() string {
 	b.WriteByte('0' + s.MemGrown)
 	b.WriteByte('0' + s.MemWrote)
 	b.WriteByte('0' + s.RefsMade)
+	b.WriteByte('0' + s.Shape)
 	bit(s.Stale)
 	bit(s.GCClean)
 	if keyFillers {
@@ -164,6 +166,9 @@ func (s state) String() string {
 	if s.MemGrown != 0 || s.MemWrote != 0 {
 		p = append(p, fmt.Sprintf("M.mem grown x%d, N wrote at size %d", s.MemGrown, s.MemWrote))
 	}
+	if s.Shape != 0 {
+		p = append(p, "R's module shape: "+shapeDefs[s.Shape].Name)
+	}
 	if s.RefsMade != 0 {
 		p = append(p, "R made "+[...]string{"", "a few", "a burst of"}[s.RefsMade]+" more references to r")
 	}
@@ -205,16 +210,62 @@ const (
 
 // how further references to R.r are made (op.X of kRefMake)
 const (
-	rmSet     = iota // R: T.tab[2] = ref.func r (one new reference, guest table.set)
-	rmBurst          // R: refBurst x (T.tab[2] = ref.func r) in a guest loop: many references made by one live instance
-	rmInit           // R: table.init T.tab[1..2] from its passive segment (duplicates of r): overwrites one duplicate, keeps T.tab[0]
-	rmHost           // host: ref = R.getref() (ref.func r) ; T.put2(ref)
-	rmGlobal         // R: glob = ref.func r
-	rmClear0         // T: T.tab[0] = null (one of the duplicate entries is overwritten; the other must stay callable)
+	rmSet    = iota // R: T.tab[2] = ref.func r (one new reference, guest table.set)
+	rmBurst         // R: refBurst x (T.tab[2] = ref.func r) in a guest loop: many references made by one live instance
+	rmInit          // R: table.init T.tab[1..2] from its passive segment (duplicates of r): overwrites one duplicate, keeps T.tab[0]
+	rmHost          // host: ref = R.getref() (ref.func r) ; T.put2(ref)
+	rmGlobal        // R: glob = ref.func r
+	rmClear0        // T: T.tab[0] = null (one of the duplicate entries is overwritten; the other must stay callable)
 	nRefMakes
 )
 
 const refBurst = 64
+
+// Module shapes of the importer R (graph TR): WHICH SECTIONS the instance that writes into the shared table declares.
+// Liveness bookkeeping is attached at link time from what the module declares, but references are also made at run
+// time (ref.func of an exported function + table.set / table.init), so every shape must be retained by T's table alike.
+type shapeDef struct {
+	Name     string
+	Active   bool // active element segment T.tab[0..1] = [r, r]
+	Passive  bool // passive segment of refBurst duplicates of r (table.init letter)
+	Decl     bool // declarative segment [r]
+	OwnTable bool // a private table of its own (index 1)
+	Global   bool // funcref global initialised with ref.func r (needs OwnTable for the call_glob probe)
+	Mem      bool // private linear memory (r counts calls and checks markers); without it r is a constant function
+	// thorough-only shapes
+	ActiveOwn  bool // an active segment that targets R's OWN table only ([r] -> ptab[0]): an element section exists, but nothing of it concerns the imported table
+	GlobalNull bool // with Global: the global is initialised with ref.null (references reach it only by global.set at run time)
+}
+
+const (
+	shFull           = iota     // the original R: active + passive segments, own table, funcref global, memory
+	shNoElem                    // NO element section at all: ref.func r is legal because r is exported; no table of its own, no global
+	shDeclOnly                  // only a DECLARATIVE segment; own table and a funcref global initialised with ref.func r
+	shPassiveOnly               // only a PASSIVE segment (never applied at instantiation); no table of its own, no global
+	shNoElemNoMem               // no element section, no table, no global AND no memory: nothing but an imported table, two types and code
+	nQuickShapes                // the shapes above are initial states of both tiers, the ones below of thorough only
+	shOwnActiveOnly  = iota - 1 // element section present, but its only (active) segment fills R's own table; the shared table is written at run time only
+	shNoElemNullGlob            // no element section; own table and a funcref global initialised with ref.null
+	nShapes
+)
+
+var shapeDefs = [nShapes]shapeDef{
+	{Name: "active+passive segments, own table, funcref global, memory", Active: true, Passive: true, OwnTable: true, Global: true, Mem: true},
+	{Name: "no-element-section,no-own-table,no-global", Mem: true},
+	{Name: "declarative-segment-only,own-table,global=ref.func", Decl: true, OwnTable: true, Global: true, Mem: true},
+	{Name: "passive-segment-only,no-own-table,no-global", Passive: true, Mem: true},
+	{Name: "no-element-section,no-own-table,no-global,no-memory"},
+	{Name: "active-segment-into-own-table-only,no-global", ActiveOwn: true, OwnTable: true, Mem: true},
+	{Name: "no-element-section,own-table,global=ref.null", OwnTable: true, Global: true, GlobalNull: true, Mem: true},
+}
+
+// probes of module x in state s (R's depend on its shape: call_glob needs the global)
+func probesOf(s state, x int) []string {
+	if x == mR && !shapeDefs[s.Shape].Global {
+		return probeFns[x][:2]
+	}
+	return probeFns[x]
+}
 
 var refMakeNames = [nRefMakes]string{
 	"R: T.tab[2] = ref.func r (guest table.set)",
@@ -452,6 +503,14 @@ func (s state) enabled(o op) bool {
 			return s.usable(mR) && s.usable(mT)
 		case rmClear0:
 			return s.usable(mT) && s.Slots[sTt0] != fNull
+		case rmInit:
+			if !shapeDefs[s.Shape].Passive {
+				return false
+			}
+		case rmGlobal:
+			if !shapeDefs[s.Shape].Global {
+				return false
+			}
 		}
 		return s.usable(mR) && s.Inst[mT] != instNone
 	}
@@ -614,18 +673,26 @@ type initial struct {
 	Mods    string `json:"mods"` // subset of "ABC" instantiated (in this order) before the history starts
 	NoCache bool   `json:"nocache"`
 	HostVia bool   `json:"host_via_builder_instantiate,omitempty"`
+	Shape   int    `json:"importer_shape,omitempty"` // graph TR: module shape of R (index into shapeDefs)
 }
 
 func (in initial) state() state {
 	var s state
 	s.NoCache = in.NoCache
 	s.HostVia = in.HostVia
+	s.Shape = uint8(in.Shape)
 	for _, c := range in.Mods {
 		s.Inst[modIndex(byte(c))] = instOpen
 	}
 	if s.Inst[mR] == instOpen {
 		// R's instantiation: active element segment T.tab[0..1] = [r, r], global initialiser ref.func r
-		s.Slots[sTt0], s.Slots[sTt1], s.Slots[sRg] = fRr, fRr, fRr
+		// (as far as R's module shape has them)
+		if shapeDefs[s.Shape].Active {
+			s.Slots[sTt0], s.Slots[sTt1] = fRr, fRr
+		}
+		if shapeDefs[s.Shape].Global && !shapeDefs[s.Shape].GlobalNull {
+			s.Slots[sRg] = fRr
+		}
 	}
 	return s
 }
@@ -646,6 +713,9 @@ func (h history) String() string {
 	}
 	if h.Init.HostVia {
 		c += ";H via builder.Instantiate"
+	}
+	if h.Init.Shape != 0 {
+		c += ";R's module shape: " + shapeDefs[h.Init.Shape].Name
 	}
 	return fmt.Sprintf("[%s;%s] %s", h.Init.Mods, c, strings.Join(p, " ; "))
 }
